@@ -109,7 +109,7 @@ static SphPair sph_pair(const SphLine& X, const SphLine& Y, Q R) {
   return S;
 }
 
-struct Root { ld x, y; double sinth; };
+struct Root { ld x, y; double sinth; double poserr = 0; };   // poserr: L1 position uncertainty of a scanned root (0 for the closed form)
 static inline ld l1(ld ax, ld ay, ld bx, ld by) { return fabsl(ax - bx) + fabsl(ay - by); }
 
 // all lattice points within L1 distance rho of p0
@@ -144,7 +144,7 @@ struct LineCache {
 struct ScanStat { uint64_t cells = 0, candidates = 0, parallel = 0, wandered = 0, unconverged = 0, roots = 0, clipped = 0; };
 
 static bool newton(const Ell& E, const GeodesicLine& lx, const GeodesicLine& ly, double& x, double& y, double h, double resv,
-                   double& sinth, ScanStat& st) {
+                   double& sinth, ScanStat& st, double* poserr = nullptr) {
   const double xs = x, ys = y;
   for (int it = 0; it < 30; ++it) {
     D3 PX, tX, PY, tY; evalline(E, lx, x, PX, tX); evalline(E, ly, y, PY, tY);
@@ -154,7 +154,25 @@ static bool newton(const Ell& E, const GeodesicLine& lx, const GeodesicLine& ly,
     double a = dot(tX, D), b = dot(tY, D);
     double dx = (-a + c * b) / det, dy = (-c * a + b) / det;
     double r = nrm(D);
-    if (r <= resv && std::fabs(dx) + std::fabs(dy) <= resv / std::sqrt(det) * 4 + 1e-9) { sinth = std::sqrt(det); return true; }
+    if (r <= resv && std::fabs(dx) + std::fabs(dy) <= resv / std::sqrt(det) * 4 + 1e-9) {
+      // converged to the verification bound; polish to the round-off floor so that small-angle roots are located as well
+      // as the data allow, and report the remaining position uncertainty
+      double bx = x, by = y, br = r, bstep = std::fabs(dx) + std::fabs(dy), bdet = det;
+      for (int k = 0; k < 6; ++k) {
+        double nx = bx + dx, ny = by + dy;
+        evalline(E, lx, nx, PX, tX); evalline(E, ly, ny, PY, tY);
+        D = sub(PX, PY); c = dot(tX, tY); det = 1 - c * c;
+        if (!(det >= 1e-12)) break;
+        double nr = nrm(D);
+        if (!(nr < br)) break;
+        a = dot(tX, D); b = dot(tY, D);
+        dx = (-a + c * b) / det; dy = (-c * a + b) / det;
+        bx = nx; by = ny; br = nr; bdet = det; bstep = std::fabs(dx) + std::fabs(dy);
+      }
+      x = bx; y = by; sinth = std::sqrt(bdet);
+      if (poserr) *poserr = 2 * br / sinth + bstep;
+      return true;
+    }
     double lim = 2 * h;
     dx = std::max(-lim, std::min(lim, dx)); dy = std::max(-lim, std::min(lim, dy));
     x += dx; y += dy;
@@ -179,12 +197,12 @@ static std::vector<Root> scan_roots(const Ell& E, const LineCache& cx, const Lin
       D3 D = sub(PX, cy.P[l + K]);
       if (dot(D, D) > h2) continue;                     // no root in this cell: |X(x)-Y(y)| >= |D| - |x-xc| - |y-yc| > 0
       ++st.candidates;
-      double x = xk, y = l * h, sinth;
-      if (!newton(E, cx.line, cy.line, x, y, h, resv, sinth, st)) continue;
+      double x = xk, y = l * h, sinth, perr = 0;
+      if (!newton(E, cx.line, cy.line, x, y, h, resv, sinth, st, &perr)) continue;
       if (std::fabs(x - p0x) + std::fabs(y - p0y) > rho + h) continue;
       bool dup = false;
-      for (auto& r : roots) if (l1(r.x, r.y, x, y) <= 1e-3 + 8 * resv / std::min(r.sinth, sinth)) { dup = true; break; }
-      if (!dup) { roots.push_back({(ld)x, (ld)y, sinth}); ++st.roots; }
+      for (auto& r : roots) if (l1(r.x, r.y, x, y) <= 1e-3 + 8 * resv / std::min(r.sinth, sinth)) { dup = true; if (perr < r.poserr) { r.x = x; r.y = y; r.sinth = sinth; r.poserr = perr; } break; }
+      if (!dup) { roots.push_back({(ld)x, (ld)y, sinth, perr}); ++st.roots; }
     }
   }
   return roots;
@@ -217,6 +235,23 @@ static const LDef LINES[] = {
   {"lat45", 45, -135, -45, 0, 0},
   {"meridian-100", 10, -100, 180, 0, 0},       // meets meridian 10E exactly at the poles
   {"nearMeridian10", 0, 10.0000001, 0, 0, 0},  // 1 cm east of meridian 10E at the equator: crossing angle 1.7e-9 rad at the poles
+  // ---- thorough tier only (the quick tier uses the 24 lines above)
+  {"genA+1e-12deg", 20, -30, 35 + 1e-12, 0, 0},   // nearly parallel family through the start of genA: 1e-12 .. 1e-5 deg
+  {"genA+1e-7deg", 20, -30, 35 + 1e-7, 0, 0},
+  {"genA+1e-5deg", 20, -30, 35 + 1e-5, 0, 0},
+  {"genA-rev+3e-7deg", 20, -30, -145 + 3e-7, 0, 0},
+  {"fromNorthPole", 90, 0, 0, 0, 0},              // lines through the poles (meridians other than 10E and 100W)
+  {"fromSouthPole", -90, 30, 45, 0, 0},
+  {"nearNorthPoleStart", 89.9999, 60, 120, 0, 0},
+  {"meridian-55", -12, -55, 0, 0, 0},
+  {"a15", 10, 20, 15, 0, 0}, {"a75", 10, 20, 75, 0, 0}, {"a105", 10, 20, 105, 0, 0}, {"a-60", 10, 20, -60, 0, 0}, {"a-160", 10, 20, -160, 0, 0},
+  {"b15", -40, -110, 15, 0, 0}, {"b75", -40, -110, 75, 0, 0}, {"b105", -40, -110, 105, 0, 0}, {"b-60", -40, -110, -60, 0, 0}, {"b-160", -40, -110, -160, 0, 0},
+  {"c15", 65, 150, 15, 0, 0}, {"c75", 65, 150, 75, 0, 0}, {"c105", 65, 150, 105, 0, 0}, {"c-60", 65, 150, -60, 0, 0}, {"c-160", 65, 150, -160, 0, 0},
+  {"d15", -70, 25, 15, 0, 0}, {"d75", -70, 25, 75, 0, 0}, {"d105", -70, 25, 105, 0, 0}, {"d-60", -70, 25, -60, 0, 0}, {"d-160", -70, 25, -160, 0, 0},
+  {"eqIncl0.001", 0, -50, 90.001, 0, 0},          // inclination 0.001 deg and 0.5 deg
+  {"eqIncl0.5W", 0, 70, -89.5, 0, 0},
+  {"almostMeridian", 0, 40, 0.01, 0, 0},
+  {"almostMeridianS", 0, -130, 179.9, 0, 0},
 };
 static const int NLALL = sizeof(LINES) / sizeof(LINES[0]);
 static int NL = 12;
@@ -229,6 +264,7 @@ static const PDef ENDS[] = {
   {"G1", 20, -30}, {"G2", 50, 70}, {"G3", -45, 120},
   // thorough tier only
   {"G4", -60, -120}, {"G5", 10, 179}, {"G6", 75, -165}, {"G7", 89.9, 0},
+  {"G8", -10, -60}, {"G9", 35, 140}, {"GA", -75, 100}, {"GB", 60, -40}, {"M4", -60, 10}, {"GC", 20.5, -29.5},
 };
 static const int NEALL = sizeof(ENDS) / sizeof(ENDS[0]);
 static int NE = 10;
@@ -252,7 +288,12 @@ struct Judge {
   double RES;                  // intersection residual tolerance (before the multi-circuit factor)
   std::string where;
   mc::Fields F;
-  void failk(const char* kind, const std::string& msg) { F[0].second = kind; { std::string rel; for (auto& f : F) if (f.first == "relation") rel = "." + f.second; ctx.count(std::string("failclass.") + kind + "." + E.name + rel); } ctx.fail(where + " " + kind, msg, F); }
+  bool softpair = false;       // lines constructed distinct but within 1e-10 deg of coincidence: see "nearly-coincident" below
+  void failk(const char* kind, const std::string& msg) { F[0].second = kind; { std::string rel; for (auto& f : F) if (f.first == "relation") rel = "." + f.second;
+#ifdef C17_DEBUG
+      for (auto& f : F) if (f.first == "pair") rel += "." + f.second;
+#endif
+      ctx.count(std::string("failclass.") + kind + "." + E.name + rel); } ctx.fail(where + " " + kind, msg, F); }
   double restol(double x, double y) const { return RES * std::max(1.0, std::max(std::fabs(x), std::fabs(y)) / (2e7 * sc)); }
   // (i) soundness: independent evaluation of both lines; returns residual, sets crossing sine
   double residual(const GeodesicLine& ix, const GeodesicLine& iy, double x, double y, double& sinth) const {
@@ -262,7 +303,7 @@ struct Judge {
   }
   bool check_point(const char* api, const GeodesicLine& ix, const GeodesicLine& iy, double x, double y, double& sinth, const struct CoLine* CL = nullptr) {
     if (!(std::isfinite(x) && std::isfinite(y))) { failk("not-finite", std::string(api) + " returned (" + fmt(x) + "," + fmt(y) + ")"); sinth = 1; return false; }
-    double r = residual(ix, iy, x, y, sinth), tol = restol(x, y);
+    double r = residual(ix, iy, x, y, sinth), tol = softpair ? coinctol(x, y) : restol(x, y);
     if (CL && on_line(*CL, x, y)) {
       // a point of the line along which the two geodesics coincide: X(x) and Y(y) both lie on the common curve whatever
       // x and y are; the residual is the ALONG-LINE mismatch of the two displacements.  The library stops iterating as
@@ -286,6 +327,7 @@ struct Judge {
   static constexpr double COINC_CAL = 432;     // worst observed 107 (401 nm at |x| = 1.68e7 m: WGS84, genB with itself, p0 = (2e7,0))
   double coinctol(double x, double y) const { return std::max(restol(x, y), COINC_CAL * std::numeric_limits<double>::epsilon() * std::max(std::max(std::fabs(x), std::fabs(y)), E.a)); }
   double postol(double sinth, double x, double y) const { return 2 * restol(x, y) / std::max(sinth, 1e-300) + restol(x, y); }
+  double postol(const Root& r) const { return std::max(postol(r.sinth, (double)r.x, (double)r.y), r.poserr); }
 };
 
 bool Judge::on_line(const CoLine& L, double x, double y) const { return L.on(x, y, 1e-3 * sc + 4 * restol(x, y)); }
@@ -303,7 +345,7 @@ int Judge::expect_c(const CoLine& L, double x, double y) const { return L.on(x, 
 int main(int argc, char** argv) {
   Ctx ctx(argc, argv);
   const bool T = ctx.thorough();
-  NL = NLALL; NE = T ? NEALL : 10;
+  NL = T ? NLALL : 24; NE = T ? NEALL : 10;
   const double aW = Constants::WGS84_a(), fW = Constants::WGS84_f();
   std::vector<Ell> ells = {{"sphere", aW, 0, false, 15e-9}, {"WGS84", aW, fW, false, 15e-9}};
   if (T) {
@@ -311,8 +353,13 @@ int main(int argc, char** argv) {
     ells.push_back({"f=-1/50", aW, -0.02, false, 30e-9});
     ells.push_back({"f=+1/5 exact", aW, 0.2, true, 40e-9});
     ells.push_back({"f=-1/4 exact", aW, -0.25, true, 40e-9});
+    ells.push_back({"f=+1/10 exact", aW, 0.1, true, 40e-9});
+    ells.push_back({"f=-1/10 exact", aW, -0.1, true, 40e-9});
   }
-  ctx.bound("ix.ellipsoids", T ? "sphere (f=0), WGS84, f=+-1/50 (series), f=1/5 and f=-1/4 with Geodesic(exact=true): the ends of the validated range" : "sphere (f=0), WGS84");
+#ifdef C17_DEBUG
+  if (getenv("C17_ELLS")) { std::vector<Ell> sel; std::string want = getenv("C17_ELLS"); for (size_t k = 0; k < ells.size(); ++k) if (want.find('0' + (char)k) != std::string::npos) sel.push_back(ells[k]); ells = sel; }
+#endif
+  ctx.bound("ix.ellipsoids", T ? "sphere (f=0), WGS84, f=+-1/50 (series), f=1/5 and f=-1/4 (ends of the validated range) and f=+-1/10 with Geodesic(exact=true)" : "sphere (f=0), WGS84");
   { std::string s; for (int i = 0; i < NL; ++i) s += std::string(i ? "; " : "") + LINES[i].name + "=(" + fmt(LINES[i].lat) + "," + fmt(LINES[i].lon) + "," + fmt(LINES[i].azi) + ")";
     ctx.bound("ix.lines", fmti(NL) + " lines, all " + fmti(NL * NL) + " ordered pairs incl. self pairs: " + s); }
   std::vector<std::pair<double, double>> P0 = {{0, 0}, {1e7, -2e7}};
@@ -321,9 +368,14 @@ int main(int argc, char** argv) {
       if (!((u == 0 && v == 0) || (u == 1e7 && v == -2e7))) P0.push_back({u, v});
     P0.push_back({-2.5e7, -4e6});
   }
-  ctx.bound("ix.p0", "the 5 x 5 grid {-2e7,-1e7,0,1e7,2e7}^2 and (-2.5e7,-4e6) m x a/6378137 (26 offsets)");
-  const std::vector<double> MAXD = {1e5, 2.5e7, 6e7};
-  ctx.bound("ix.all.maxdist", "{1e5, 2.5e7, 6e7} m");
+  if (T) {
+    for (int u = -3; u <= 3; ++u) for (int v = -3; v <= 3; ++v) if (std::abs(u) == 3 || std::abs(v) == 3) P0.push_back({u * 1e7, v * 1e7});
+    P0.push_back({3.3e6, 1.7e7}); P0.push_back({-1.234e7, 2.9e7}); P0.push_back({5e6, -5e6});
+  }
+  ctx.bound("ix.p0", T ? "the 7 x 7 grid {-3e7..3e7 step 1e7}^2 and (-2.5e7,-4e6), (3.3e6,1.7e7), (-1.234e7,2.9e7), (5e6,-5e6) m x a/6378137 (53 offsets)"
+                       : "the 5 x 5 grid {-2e7,-1e7,0,1e7,2e7}^2 and (-2.5e7,-4e6) m x a/6378137 (26 offsets)");
+  const std::vector<double> MAXD = T ? std::vector<double>{0, 1e5, 5e6, 2.5e7, 4.2e7, 6e7} : std::vector<double>{1e5, 2.5e7, 6e7};
+  ctx.bound("ix.all.maxdist", T ? "{0, 1e5, 5e6, 2.5e7, 4.2e7, 6e7} m" : "{1e5, 2.5e7, 6e7} m");
   ctx.bound("ix.scan", "ellipsoid oracle: cells h = 2.5e5 m (lines) / 2e5 m (segments) over the whole L1 diamond; exclusion |X(xc)-Y(yc)| > h, else Gauss-Newton; roots verified by residual, crossing angle > 1e-6");
   ctx.note("residual tolerance: 20 nm (DESIGN Appendix B: eps-level, _eps*R ~ 4 nm) x gdoc/15nm for the solver used x max(1, max(|x|,|y|)/2e7) for multi-circuit displacements; "
            "a position on the (x,y) plane is matched within 2*tol/sin(crossing angle) + tol");
@@ -353,8 +405,8 @@ int main(int argc, char** argv) {
     ScanStat st; uint64_t sphere_lattice_pts = 0, sphere_lattice_found = 0, all_unmatched_returned = 0, all_illconditioned_returned = 0, calls = 0;
     for (const Ell& E : ells) {
       const double sc = E.a / aW;
-      const double hline = 2.5e5 * sc; const int Kline = 410;    // |x| <= 1.025e8: covers |p0|_1 + maxdist + margin
-      const double rhobig = 1e8 * sc;                            // one root set per pair: L1 diamond about the origin, >= max |p0|_1 + max maxdist
+      const double hline = 2.5e5 * sc; const int Kline = T ? 490 : 410;    // |x| <= 1.225e8 / 1.025e8: covers |p0|_1 + maxdist + margin
+      const double rhobig = (T ? 1.2e8 : 1e8) * sc;                            // one root set per pair: L1 diamond about the origin, >= max |p0|_1 + max maxdist
       // per ellipsoid objects are built lazily (only if this shard owns a unit)
       Geodesic* g = nullptr; Intersect* in = nullptr; std::vector<LineCache> cache; std::vector<GeodesicLine> lines;
       for (int i = 0; i < NL; ++i) for (int j = 0; j < NL; ++j) {
@@ -370,8 +422,15 @@ int main(int argc, char** argv) {
         const GeodesicLine lx = g->Line(A.lat, A.lon, A.azi, Intersect::LineCaps), ly = g->Line(B.lat, B.lon, B.azi, Intersect::LineCaps);
         const GeodesicLine &ix = lines[i], &iy = lines[j];
         Judge J{ctx, E, *g, sc, 20e-9 * sc * (E.gdoc / 15e-9)};
+        // "nearly-coincident": same start, azimuths (or azimuth and reversed azimuth) within 1e-10 deg but not equal: the
+        // lines are distinct (up to 1e-7 m apart) yet inside the library's own coincidence threshold for part of their
+        // length; the documentation does not say which c applies nor which of the ill-conditioned crossings are listed.
+        // Only soundness (true intersection up to the along-line tolerance, maxdist, order) is demanded there.
+        const bool soft = ec == 0 && A.lat == B.lat && A.lon == B.lon && A.azi != B.azi &&
+                          (std::fabs(A.azi - B.azi) <= 1e-10 || std::fabs(std::fabs(A.azi - B.azi) - 180) <= 1e-10);
+        J.softpair = soft;
         J.F = {{"kind", ""}, {"ellipsoid", E.name}, {"pair", std::string(A.name) + "/" + B.name}, {"coincident", fmti(ec)},
-               {"relation", i == j ? "identical" : (ec ? "coincident" : "distinct")}, {"c", ""}};
+               {"relation", i == j ? "identical" : (ec ? "coincident" : (soft ? "nearly-coincident" : "distinct"))}, {"c", ""}};
         SphPair S; if (E.f == 0) S = sph_pair(sph_line(A.lat, A.lon, A.azi), sph_line(B.lat, B.lon, B.azi), (Q)E.a);
         if (E.f == 0 && S.coincident != (ec != 0)) { fprintf(stderr, "oracle self-check: coincidence of %s/%s\n", A.name, B.name); return 2; }
         CoLine CL; CL.c = ec;
@@ -381,7 +440,7 @@ int main(int argc, char** argv) {
           else if (A.group == 1) { CL.b = B.dir * (ld)E.a * (A.lon - B.lon) * LPI / 180; CL.pers = {2 * LPI * E.a}; }          // equator (closed)
           else if (A.group == 2) { CL.b = B.dir * (merid(*g, A.lat, A.lon) - merid(*g, B.lat, B.lon)); CL.pers = {4 * (ld)qm}; }  // meridian 10E (closed)
           else { CL.b = 0; CL.pers = {0};                                                                 // same start point
-            if (A.azi == 0 || std::fabs(A.azi) == 180) CL.pers.push_back(4 * (ld)qm);                     // a meridian is closed
+            if (A.azi == 0 || std::fabs(A.azi) == 180 || std::fabs(A.lat) == 90) CL.pers.push_back(4 * (ld)qm);   // a meridian is closed
             if (A.lat == 0 && std::fabs(A.azi) == 90) CL.pers.push_back(2 * LPI * E.a); }
         }
         // ---- reference root set within the big diamond (once per pair)
@@ -391,7 +450,7 @@ int main(int argc, char** argv) {
           if (E.f == 0) { roots = sph_lattice(S, 0, 0, rhobig + 1e3); complete = true; have = true; }
           // scan (the oracle on ellipsoids; a self-check of the scan on the sphere)
           if ((double)(E.f == 0 ? (double)S.sinth : 1.0) > 1e-6) {
-            sroots = scan_roots(E, cache[i], cache[j], 0, 0, rhobig, 4 * J.restol(1e8 * sc, 0), st);
+            sroots = scan_roots(E, cache[i], cache[j], 0, 0, rhobig, 4 * J.restol(1e8 * sc, 0), st);   // (verification residual bound kept at its quick-tier value)
             if (E.f == 0) {
               for (auto& r : roots) { if (l1(r.x, r.y, 0, 0) > rhobig) continue; ++sphere_lattice_pts;
                 for (auto& s : sroots) if (l1(r.x, r.y, s.x, s.y) <= 1e-3) { ++sphere_lattice_found; break; } }
@@ -417,10 +476,13 @@ int main(int argc, char** argv) {
             if (J.check_point("closest", ix, iy, p.first, p.second, sinth, &CL)) {
               const int lc = J.expect_c(CL, p.first, p.second);
               J.F[5].second = fmti(c1);
-              if (c1 != lc) J.failk("coincidence-indicator", "c = " + fmti(c1) + " at (" + fx(p.first) + "," + fx(p.second) + "), expected " + fmti(lc) + " (lines constructed with c = " + fmti(ec) + ")");
+              if (soft) { ctx.count(c1 ? "ix.nearly-coincident.c_nonzero" : "ix.nearly-coincident.c_zero"); }
+              else if (c1 != lc) J.failk("coincidence-indicator", "c = " + fmti(c1) + " at (" + fx(p.first) + "," + fx(p.second) + "), expected " + fmti(lc) + " (lines constructed with c = " + fmti(ec) + ")");
               if (E.f == 0 && ec == 0) sinth = (double)S.sinth;                        // exact crossing angle on the sphere
               const double dlib = std::fabs(p.first - p0x) + std::fabs(p.second - p0y);
-              if (ec != 0 && E.f == 0) {
+              if (soft) {
+                // nothing further is decidable
+              } else if (ec != 0 && E.f == 0) {
                 // coincident great circles: the L1 distance to the nearest coincidence line is the minimum
                 ld dmin = sph_coinc_mindist(S, p0x, p0y);
                 double tol = 4 * J.coinctol(p.first, p.second);
@@ -436,7 +498,7 @@ int main(int argc, char** argv) {
                   if (!(dmatch <= pt)) J.failk("closest-not-on-lattice", "sphere: returned (" + fx(p.first) + "," + fx(p.second) + ") is " + fmt((double)dmatch) + " from the nearest true intersection");
                 }
                 if (rmin) {
-                  double margin = 1e-3 + pt + J.postol(rmin->sinth, (double)rmin->x, (double)rmin->y);
+                  double margin = 1e-3 + pt + J.postol(*rmin);
                   if (complete) ctx.worstf("ix.closest.sphere_excess_dist_over_tol", (dlib - (double)dmin) / (2 * pt), [&] { return J.where; });
                   if (complete ? !(dlib <= (double)dmin + 2 * pt) : !(dlib <= (double)dmin + margin))
                     J.failk("closest-not-minimal", "returned (" + fx(p.first) + "," + fx(p.second) + ") at L1 distance " + fx(dlib) + " but (" + fmt((double)rmin->x) + "," + fmt((double)rmin->y) +
@@ -468,12 +530,12 @@ int main(int argc, char** argv) {
               prev = d;
               { const int lc = J.expect_c(CL, v[k].first, v[k].second);
                 J.F[5].second = k < cv.size() ? fmti(cv[k]) : "";
-                if (k < cv.size() && cv[k] != lc) J.failk("coincidence-indicator", "c[" + fmti(k) + "] = " + fmti(cv[k]) + ", expected " + fmti(lc) + " (lines constructed with c = " + fmti(ec) + ")"); }
+                if (!soft && k < cv.size() && cv[k] != lc) J.failk("coincidence-indicator", "c[" + fmti(k) + "] = " + fmti(cv[k]) + ", expected " + fmti(lc) + " (lines constructed with c = " + fmti(ec) + ")"); }
               if (E.f == 0 && ec == 0) sth[k] = (double)S.sinth;
               for (size_t m = 0; m < k; ++m)
-                if (l1(v[k].first, v[k].second, v[m].first, v[m].second) <= 1.0) J.failk("all-duplicate", "points " + fmti(m) + " and " + fmti(k) + " are the same intersection");
+                if (!soft && l1(v[k].first, v[k].second, v[m].first, v[m].second) <= 1.0) J.failk("all-duplicate", "points " + fmti(m) + " and " + fmti(k) + " are the same intersection");
             }
-            if (!ok) continue;
+            if (!ok || soft) continue;
             if (ec != 0) {
               // coincident lines: a continuum of intersections; documented nowhere which are listed.  Sound part only:
               // the closest one must be present when it is within maxdist
@@ -488,7 +550,7 @@ int main(int argc, char** argv) {
               const double pt = 1e-3 + J.postol(sth[k], v[k].first, v[k].second);
               int best = -1; ld bd = 1e30L;
               for (size_t m = 0; m < roots.size(); ++m) { ld d = l1(roots[m].x, roots[m].y, v[k].first, v[k].second); if (d < bd) { bd = d; best = (int)m; } }
-              if (best >= 0 && bd <= pt + J.postol(roots[best].sinth, (double)roots[best].x, (double)roots[best].y)) {
+              if (best >= 0 && bd <= pt + J.postol(roots[best])) {
                 if (used[best]) J.failk("all-duplicate", "two returned points match the same intersection");
                 used[best] = 1;
                 if (complete) ctx.worstf("ix.all.sphere_position_err_over_tol", (double)bd / (pt - 1e-3), [&] { return J.where; });
@@ -498,7 +560,7 @@ int main(int argc, char** argv) {
             for (size_t m = 0; m < roots.size(); ++m) {
               if (used[m]) continue;
               ld d = l1(roots[m].x, roots[m].y, p0x, p0y);
-              double pt = 1e-3 + 2 * J.postol(roots[m].sinth, (double)roots[m].x, (double)roots[m].y);
+              double pt = 1e-3 + 2 * J.postol(roots[m]);
               if (d <= md - pt)
                 J.failk("all-missed", "intersection (" + fmt((double)roots[m].x) + "," + fmt((double)roots[m].y) + ") at L1 distance " + fmt((double)d) + " <= maxdist is not in the list of " + fmti(v.size()));
             }
@@ -521,8 +583,10 @@ int main(int argc, char** argv) {
   {
     std::vector<PDef> starts = {{"(0,0)", 0, 0}, {"(20,-30)", 20, -30}, {"(-60,100)", -60, 100}, {"(90,0)", 90, 0}};
     std::vector<double> azis = {0, 35, 90, 135, 180, -145, -90, -35.5, 35 + 1e-9};
-    if (T) { starts.push_back({"(45,45)", 45, 45}); starts.push_back({"(-5,-170)", -5, -170}); azis.push_back(60); azis.push_back(-120); azis.push_back(1); }
-    ctx.bound("ix-next", T ? "start points (0,0) (20,-30) (-60,100) (90,0) (45,45) (-5,-170) x all 144 ordered pairs of azimuths {0,35,90,135,180,-145,-90,-35.5,35+1e-9,60,-120,1}"
+    if (T) { starts.push_back({"(45,45)", 45, 45}); starts.push_back({"(-5,-170)", -5, -170}); azis.push_back(60); azis.push_back(-120); azis.push_back(1);
+      starts.push_back({"(0,90)", 0, 90}); starts.push_back({"(-89.9,0)", -89.9, 0}); starts.push_back({"(30,179.9)", 30, 179.9}); starts.push_back({"(-45,-45)", -45, -45});
+      for (double a : {10.0, 170.0, -10.0, -170.0, 89.999, 45.0, 120.5, 35 + 1e-12, 35 + 1e-5}) azis.push_back(a); }
+    ctx.bound("ix-next", T ? "start points (0,0) (20,-30) (-60,100) (90,0) (45,45) (-5,-170) (0,90) (-89.9,0) (30,179.9) (-45,-45) x all 441 ordered pairs of azimuths {0,35,90,135,180,-145,-90,-35.5,35+1e-9,60,-120,1,10,170,-10,-170,89.999,45,120.5,35+1e-12,35+1e-5}"
                            : "start points (0,0) (20,-30) (-60,100) (90,0) x all 81 ordered pairs of azimuths {0,35,90,135,180,-145,-90,-35.5,35+1e-9}");
     ScanStat st; uint64_t calls = 0;
     for (const Ell& E : ells) for (const PDef& s0 : starts) {
@@ -577,7 +641,7 @@ int main(int argc, char** argv) {
           std::vector<Root> roots = scan_roots(E, cache[i], cache[j], 0, 0, std::min(dlib, 4.5e7 * sc), 4 * J.restol(5e7 * sc, 0), st);
           for (auto& r : roots) {
             ld d = l1(r.x, r.y, 0, 0);
-            double margin = 1e-3 + J.postol(sinth, p.first, p.second) + J.postol(r.sinth, (double)r.x, (double)r.y);
+            double margin = 1e-3 + J.postol(sinth, p.first, p.second) + J.postol(r);
             if (d > 1.0 * sc && d < dlib - margin) { J.failk("next-not-minimal", "returned (" + fx(p.first) + "," + fx(p.second) + ") at L1 distance " + fx(dlib) + " but (" + fmt((double)r.x) + "," + fmt((double)r.y) + ") is an intersection at " + fmt((double)d)); break; }
           }
         }
@@ -600,7 +664,7 @@ int main(int argc, char** argv) {
     for (int p = 0; p < NE; ++p) for (int q = 0; q < NE; ++q) if (p != q) segs.push_back({p, q});
     { std::string s; for (int i = 0; i < NE; ++i) s += std::string(i ? " " : "") + ENDS[i].name + "=(" + fmt(ENDS[i].lat) + "," + fmt(ENDS[i].lon) + ")";
       ctx.bound("ix-segment.endpoints", s + " (4 on the equator, 3 on meridian 10E, the rest generic)"); }
-    ctx.bound("ix-segment.pairs", T ? "all 182 x 182 ordered pairs of directed segments" : "all 90 directed segments X x the 45 segments Y with first end point index < second");
+    ctx.bound("ix-segment.pairs", T ? "all 380 x 380 ordered pairs of directed segments" : "all 90 directed segments X x the 45 segments Y with first end point index < second");
     ScanStat st; uint64_t calls = 0, borderline = 0, crossing = 0, disjoint = 0, reversed_unrecognised = 0, reversed_unrecognised_disjoint = 0;
     for (const Ell& E : ells) {
       const double sc = E.a / aW;
@@ -723,7 +787,7 @@ int main(int argc, char** argv) {
             if (rho > 4.8e7 * sc) { ctx.count("ix-segment.scan-skipped-far"); continue; }
             std::vector<Root> roots = scan_roots(E, cache[i], cache[j], mx, my, rho, 4 * J.restol(5e7 * sc, 0), st);
             for (auto& r : roots) {
-              double rp = J.postol(r.sinth, (double)r.x, (double)r.y);
+              double rp = J.postol(r);
               ld ins = std::min(std::min(r.x, (ld)sx - r.x), std::min(r.y, (ld)sy - r.y));
               if (ins > 1e-3 + rp + pt && sm != 0) { J.failk("segment-crossing-missed", "the segments cross at (" + fmt((double)r.x) + "," + fmt((double)r.y) + ") but segmode = " + fmti(sm) + ", returned (" + fx(p.first) + "," + fx(p.second) + ")"); break; }
               ld d = l1(r.x, r.y, mx, my);
